@@ -7,6 +7,7 @@
 //! text leaves open is counted as don't-care.
 
 pub mod event;
+pub mod fuzz;
 pub mod http;
 pub mod jsonp;
 pub mod node;
